@@ -11,6 +11,14 @@ CLAIMED = {
          "Not decided: user code blocks, goimports, label clashes after -optimize-grammar inlining. Trusted: text/template, go/parser, go/types, go vet.",
          "DESIGN.md §3 C04"),
 }
+CLAIMED["C01"] = ("typestate abstract interpretation over go/cfg of all parse<Kind> methods in the 16 semantic template variants vs. a per-kind specification table; dispatch exhaustiveness",
+ "Sound static decision of the per-kind induction step of PEG semantics: failure consumes nothing, ordered choice commits to the first match in slice order, greedy repetition, value provenance per kind, dispatch/lowering agreement, no terminal advances at end of input, entrypoint lookup. With structural induction over expression trees this is the argument for every grammar and input except the rune arithmetic inside class matching.",
+ "Not decided: that a class denotes the set its text denotes (rune arithmetic), the front-end's decoding of class text, user code mutating parser internals. Induction hypothesis on callees is itself an obligation of every evaluator. Trusted: go/cfg, go/types.",
+ "DESIGN.md §3 C01, Appendix A")
+CLAIMED["C05"] = ("typestate abstract interpretation of state-store versions and linear clone tokens; ownership scan for globalStore; symbol absence in store-less variants",
+ "Sound static decision of the inductive roll-back invariant: failure and predicates leave the store at its entry version, code blocks are bracketed, success paths never reinstate an older snapshot, clone tokens are linear, globalStore is never touched by the runtime, the left-recursion leader discards its final attempt. Holds for every grammar and input by induction over expression trees.",
+ "Not decided: user Clone() correctness; behaviour under Memoize(true). Trusted: sync.Pool contract, go/cfg, go/types.",
+ "DESIGN.md §3 C05")
 NA_REASON = {}
 DEFAULT_NA = "no check registered in this revision of the framework (see DESIGN.md for the planned static rules)"
 
